@@ -53,7 +53,7 @@ pub fn gen_case(c: &mut Chooser) -> Case {
     let mut cfg = pipeline::default_config();
     let four = |s: &str| [s.to_string(), s.to_string(), s.to_string(), s.to_string()];
     // the base schema's `scalar Version`
-    match c.choose("scalar.Version", 4) {
+    match c.choose("scalar.Version", 5) {
         0 => {
             cfg.generate.r#type.scalar_types.insert("Version".into(), ScalarTypeConfig::Single("string".into()));
             scalars.insert("Version".into(), four("string"));
@@ -68,6 +68,30 @@ pub fn gen_case(c: &mut Chooser) -> Case {
                 ScalarTypeConfig::Separate(SeparateScalarTypeConfig { operation_input: "OI".into(), operation_output: "OO".into(), resolver_input: "RI".into(), resolver_output: "RO".into() }),
             );
             scalars.insert("Version".into(), ["OI".into(), "OO".into(), "RI".into(), "RO".into()]);
+        }
+        k @ 4 => {
+            // both a directive on the scalar and a scalarTypes entry: the configuration option takes
+            // precedence (documented in the printer: "scalarTypes option takes precedence")
+            let d = files.iter_mut().flat_map(|f| f.defs.iter_mut()).find(|d| d.kind == TsKind::Scalar && d.name_str() == "Version" && !d.ext);
+            if let Some(d) = d {
+                d.dirs.push(dir(
+                    "nitrogql_ts_type",
+                    vec![
+                        ("resolverInput", Value::Str(P::default(), "DRI".into())),
+                        ("resolverOutput", Value::Str(P::default(), "DRO".into())),
+                        ("operationInput", Value::Str(P::default(), "DOI".into())),
+                        ("operationOutput", Value::Str(P::default(), "DOO".into())),
+                    ],
+                ));
+            }
+            if k == 4 {
+                cfg.generate.r#type.scalar_types.insert("Version".into(), ScalarTypeConfig::Single("string".into()));
+                scalars.insert("Version".into(), four("string"));
+            } else {
+                cfg.generate.r#type.scalar_types.insert("Version".into(), ScalarTypeConfig::SendReceive(SendReceiveScalarTypeConfig { send: "string | number".into(), receive: "bigint".into() }));
+                scalars.insert("Version".into(), ["string | number".into(), "bigint".into(), "bigint".into(), "string | number".into()]);
+            }
+            tags.push("scalar-by-directive-and-config".into());
         }
         _ => {
             // through the directive; the config has no entry
